@@ -121,6 +121,8 @@ class Func:
         while stack:
             n = stack.pop()
             yield n
+            if isinstance(n, (ast.FunctionDef, ast.AsyncFunctionDef, ast.ClassDef, ast.Lambda)):
+                continue        # a nested definition is a statement of this function; its body is not
             for c in reversed(list(ast.iter_child_nodes(n))):
                 if isinstance(c, (ast.FunctionDef, ast.AsyncFunctionDef, ast.ClassDef, ast.Lambda)):
                     continue
